@@ -158,3 +158,12 @@ Definition large_step_c (lk : cstate) (x : xstate) : cstate * xstate * N :=
     end.
 
 End LargeCache.
+
+From V Require Import Interp.
+
+(* the run of the correspondence harness with the caches: the trace and the caches at its end *)
+Definition run_large_c (lv : lg_variant) (xv : ex_variant) (late : bool) (t : tree) (evs : list bytes) (fuel : nat)
+  : list tok * tcache :=
+  let c := flatten late t in
+  let '(lk, x) := run_loop c cstate (large_step_c lv xv c) (fun s => l_cfg (fst s)) fuel (l_pristine, tc_empty) x_init evs in
+  (rev (x_out x), snd lk).
